@@ -261,6 +261,10 @@ def compare_with_reader(walk_verdict, reader_out, ids):
         out.append("user data: reader '%s' / decoder '%s'" % (rops[k][:400], d["udr"][:400]))
     k += 1
     defined = {key[1] for key in d if isinstance(key, tuple)}
+    spd = {}
+    for it in d["sigs"].split()[3:]:
+        f = it.split(",")
+        spd[int(f[0])] = int(f[5])
     for sid in ids:
         an, ut, ln = rops[k], rops[k + 1], rops[k + 2]
         k += 3
@@ -272,9 +276,13 @@ def compare_with_reader(walk_verdict, reader_out, ids):
         if fsr and re.search(r"\] 0 ", ut) and _items(ut) != _items(d[("ut", sid)]):
             out.append("UTC entries of signal %d: reader '%s' / decoder '%s'" % (sid, ut[:400], d[("ut", sid)][:400]))
         lt = ln.split()
-        m = re.search(r"end=(-?\d+) end_with_omitted=(-?\d+)", d[("data", sid)])
-        if len(lt) == 3 and lt[1] == "0" and m and int(lt[2]) not in (int(m.group(1)), int(m.group(2))):
-            out.append("length of signal %d: reader %s / decoder %s" % (sid, ln, d[("data", sid)][:200]))
+        m = re.search(r"omitted=(\d+) end=(-?\d+) end_with_omitted=(-?\d+)", d[("data", sid)])
+        if len(lt) == 3 and lt[1] == "0" and m:
+            got, nom, end, endo = int(lt[2]), int(m.group(1)), int(m.group(2)), int(m.group(3))
+            # the sample count of an omitted block is not stored: an omitted final block may be partial (and the reader may not count it at all: C15)
+            ok = (got == end) if (nom == 0 or endo == end) else (end <= got <= endo and endo - got <= spd.get(sid, 1))
+            if not ok:
+                out.append("length of signal %d: reader %s / decoder %s" % (sid, ln, d[("data", sid)][:200]))
     return out
 
 
